@@ -55,6 +55,40 @@ func c08Run(c *fw.Ctx) {
 		}
 		e.Explore()
 		c.SetAdd("configs", spec.String())
+		// directed histories beyond the quick depth: a mailbox filled to its cap, a message that is
+		// NOT the oldest removed, one delivery, then every operation twice over - the cap must go on
+		// evicting the oldest
+		if spec.Cap >= 2 && c.Shard == 0 {
+			find := func(want string) int {
+				for i, o := range c08Ops {
+					if o.String() == want {
+						return i
+					}
+				}
+				panic("VERIF-INFRA no op " + want)
+			}
+			add, rmNewest := find("add(m1,300B)"), find("remove(m1,newest)")
+			var prefix []int
+			for i := 0; i < spec.Cap; i++ {
+				prefix = append(prefix, add)
+			}
+			prefix = append(prefix, rmNewest, add)
+			for x := range c08Ops {
+				for y := range c08Ops {
+					if c.Expired() {
+						return
+					}
+					seq := append(append([]int{}, prefix...), x, y)
+					if !c.Begin(func() any { return descStoreSeq(spec, c08Ops, seq) }) {
+						continue
+					}
+					_, _, nt := runStoreSeqFrom(c, spec, c08Ops, seq, len(prefix))
+					if nt {
+						c.Nontrivial(1)
+					}
+				}
+			}
+		}
 	}
 }
 
